@@ -47,7 +47,9 @@ GR = {
                'terminals\nn: ;\nWS: /\\s+/;\nCM: /\\/\\/.*/;\n'),
     "named": 'S: l=S "+" r=T | t=T;\nT: n;\nterminals\nn: ;\n',
     # lexical overlap: the finish flags a table was built with matter
-    "overlap": 'S: S "+" S | n | "nn" | n n;\nterminals\nn: ;\n',
+    # ("n!n": a token that spans a position where the user recognizer raises:
+    # GLR has the long token queued for shifting when the exception escapes)
+    "overlap": 'S: S "+" S | n | "nn" | n n | "n!n";\nterminals\nn: ;\n',
 }
 PROBES = ["", "n", "n+n", "n +n", "+", "n+", "nn", "n+n+n", " n //c\n+n", "n+x+n",
           "nn+n"]
@@ -123,7 +125,7 @@ EVENTS = ([("build", k) for k in KINDS] +
            ("parse", "n+n"), ("parse", "n+"), ("parse", ""), ("parse", "+n+"),
            ("parse", "n+x+n"),
            ("parse-boom-action", "n+n"), ("parse-boom-recognizer", "n+!"),
-           ("parse-boom-recognizer", "n!"),
+           ("parse-boom-recognizer", "n!"), ("parse-boom-recognizer", "n!n"),
            ("from_string_ok",), ("from_string_bad_syntax",),
            ("from_string_bad_semantic",)])
 
